@@ -2,7 +2,7 @@
 # the two matrices at the current heads: every seeded change (expect the catalogued rule to fire) and every independent
 # behaviour-preserving refactoring (expect silence) against every quick check
 cd "$(dirname "$0")/.."
-LANES=${LANES:-3} tools/detect_matrix.sh matrix_out > /dev/null
+LANES=${LANES:-5} tools/detect_matrix.sh matrix_out > /dev/null
 echo "=== seeded"; cat matrix_out/summary.txt
-LANES=${LANES:-3} SRC=$PWD/benign tools/detect_matrix.sh matrix_benign > /dev/null
+LANES=${LANES:-5} SRC=$PWD/benign tools/detect_matrix.sh matrix_benign > /dev/null
 echo "=== benign"; cat matrix_benign/summary.txt
